@@ -67,6 +67,7 @@ class Opts(object):
         self.methods = (2, 5)
         self.services = (1, 2)
         self.text_alphabet = 'xml'
+        self.memberless_subclasses = True
         self.__dict__.update(kw)
 
 
@@ -648,6 +649,8 @@ def gen_value(rng, ir, t, depth=3, top=False, alphabet='xml', subclass_ok=False)
         top = True      # the text content of a simpleContent type cannot be absent unless it is a string
     if 'attr' in t and t['attr'].get('min_occurs', 0) >= 1:
         top = True      # a required attribute
+    if 'ref' in t and any('attr' in ft and ft['attr'].get('min_occurs', 0) >= 1 for _, ft in all_fields(ir, t['ref'])):
+        top = True      # XSD wants the required attributes even on a nilled element: "no value" has no valid spelling for such a type
     if not top and (optional or nillable) and rng.random() < .15:
         return None
     if 'prim' in t:
